@@ -61,6 +61,9 @@ parsec_compound_taskpool_startup( parsec_context_t *context,
         o->on_complete      = parsec_composed_taskpool_cb;
         o->on_complete_data = compound;
     }
+    /* All the members are accounted for: the compound can now be declared
+     * ready, it will terminate when its last member completes. */
+    compound->super.tdm.module->taskpool_ready(&compound->super);
     parsec_context_add_taskpool(compound->ctx, compound->taskpool_array[0]);
     (void)startup_list;
 }
@@ -71,6 +74,9 @@ __parsec_compound_taskpool_destructor( parsec_compound_taskpool_t* compound )
     assert(PARSEC_TASKPOOL_TYPE_COMPOUND == compound->super.taskpool_type);
     PARSEC_DEBUG_VERBOSE(30, parsec_debug_output,
                          "Compound taskpool destructor %p", compound);
+    if( NULL != compound->super.tdm.module ) {
+        compound->super.tdm.module->unmonitor_taskpool(&compound->super);
+    }
     free(compound->taskpool_array);
     if( NULL == compound->super.taskpool_name ) {
         free(compound->super.taskpool_name);
@@ -87,6 +93,13 @@ __parsec_compound_taskpool_constructor( parsec_compound_taskpool_t* compound )
     compound->completed_taskpools = 0;
     compound->nb_taskpools = 0;
     compound->super.startup_hook = parsec_compound_taskpool_startup;
+    /* The compound monitors its own termination (it terminates with its last
+     * member). Install the detector here so that parsec_context_add_taskpool
+     * does not declare the compound ready, and thus terminated, before the
+     * startup hook has counted its members. */
+    parsec_termdet_open_module(&compound->super, "local");
+    compound->super.tdm.module->monitor_taskpool(&compound->super,
+                                                 parsec_taskpool_termination_detected);
 }
 
 PARSEC_OBJ_CLASS_INSTANCE(parsec_compound_taskpool_t, parsec_taskpool_t,
